@@ -3,6 +3,8 @@ import json
 
 QUICK_NP = (1, 2, 3, 5)
 ALL_NP = (1, 2, 3, 4, 5, 6, 7, 8)
+# FromRows / FlattenSeq recurse once per matrix row: matrices of ~200 rows overflow the default Java thread stack
+XSS = {"JAVA_TOOL_OPTIONS": "-Xss64m"}
 
 
 def sig(rec, clauses):
@@ -60,7 +62,7 @@ def run(c):
         if not lines:
             return None
         open(t, "w").write("\n".join(lines) + "\n")
-        return c.tlc_trace("C12Trace", t, label=label, chunk=chunk)
+        return c.tlc_trace("C12Trace", t, label=label, chunk=chunk, env=XSS)
 
     def code():
         rs = c.build("record_dist_solve", ["record_dist_solve.cpp"], mpi=True)
@@ -83,7 +85,7 @@ def run(c):
                 pick = [x for x in res["lines"] if '"k":"aggr"' in x]
                 step = max(1, len(pick) // (2000 if th else 500))
                 open(sub, "w").write("\n".join(pick[::step]) + "\n")
-                res["drift"] = c.tlc_trace("C12Trace", sub, label="drift@%dranks" % n, chunk=300, env={"C12MODE": "drift"})["bad"] if pick else []
+                res["drift"] = c.tlc_trace("C12Trace", sub, label="drift@%dranks" % n, chunk=300, env=dict(XSS, C12MODE="drift"))["bad"] if pick else []
             return res
         for res in c.parallel([lambda j=j: one(j) for j in jobs], max_workers=3):
             if res is None:
